@@ -225,11 +225,16 @@ def split_trace(trace, parts, outdir):
     return paths
 
 
-def observe(ctx, trace, name="observe", timeout=1800, parts=12, modules=("ObsCache",)):
+def observe(ctx, trace, name="observe", timeout=1800, parts=None, modules=("ObsCache",)):
     """Validate a recorded trace with the TLA+ observers (TLC, one process per chunk of traces, in
     parallel); returns (list of bad records with `at` relative to the chunk file and a `chunk` path, summary)."""
     from concurrent.futures import ThreadPoolExecutor
     base = ctx.sub(name)
+    if parts is None:
+        # a JVM start costs several seconds: one chunk per ~12k events, at most 12 chunks
+        with open(trace) as f:
+            nlines = sum(1 for _ in f)
+        parts = max(1, min(12, (nlines + 11999) // 12000))
     chunks = split_trace(trace, parts, base)
 
     def one(job):
@@ -237,7 +242,8 @@ def observe(ctx, trace, name="observe", timeout=1800, parts=12, modules=("ObsCac
         d = os.path.join(base, os.path.basename(p)[:-7] + "-" + mod)
         os.makedirs(d)
         shutil.copy(p, os.path.join(d, "trace.ndjson"))
-        r = vlib.tlc(ctx, OBS_FILES, mod, mod + ".cfg", workers=1, timeout=timeout, workdir=d, heap="3g")
+        r = vlib.tlc(ctx, OBS_FILES, mod, mod + ".cfg", workers=1, timeout=timeout, workdir=d, heap="3g",
+                     jvm=("-XX:ParallelGCThreads=2", "-XX:CICompilerCount=2"))
         if not r.ok:
             raise Inconclusive("observer %s failed: %s\n%s" % (mod, r.error or r.violated, r.out[-2500:]))
         bad = vlib.obs_result(r.out)[0]
